@@ -44,6 +44,10 @@ func c02Atoms(r *rand.Rand, all bool) []string {
 	return out
 }
 
+// the 6-slot instances kept in the quick tier (one per carry-over mechanism)
+var c02BigQuick = map[string]bool{"//*[descendant::a/descendant::b]": true, "//*[(a)[1]]": true, "//*[(*)[2]]": true, "//*[a/b[1]]": true, "//*[b/a[not(*)]]": true,
+	"//*[*[*[*]]]": true, "//*[not(descendant::a/descendant::b)]": true, "//*[a[b][1]]": true}
+
 func buildC02(tier string, seed int64) *Family {
 	r := rand.New(rand.NewSource(seed))
 	cfg := docCfg{N: 4, A: 1, Names: "a,b", Pool: ",1,x"}
@@ -113,6 +117,9 @@ func buildC02(tier string, seed int64) *Family {
 	for _, t := range []string{"//*[descendant::a/descendant::b]", "//a[descendant::*/descendant::*]", "//*[descendant::a//b]", "*[descendant-or-self::a/descendant::b]",
 		"//*[(a)[1]]", "//*[(*)[2]]", "//a[(b | a)[1]]", "//*[a/b[1]]", "//*[*/*[2]]", "//*[a[b][1]]", "//*[b/a[not(*)]]", "//*[a/b[a]]", "//*[*[*[*]]]",
 		"//*[not(descendant::a/descendant::b)]", "//*[count(descendant::a/descendant::b) = 1]", "//*[a/b[1] or b]", "//a[*/*[last()]]"} {
+		if tier != "thorough" && !c02BigQuick[t] {
+			continue
+		}
 		insts = append(insts, nodesetInst(t, big))
 	}
 	for _, t := range []string{"//*[a[@a][2]]", "//*[*[@a][1]]", "//*[a/b[contains(., '1')]]", "//*[a/*[. = '1']]", "//*[*/a[@a = '1']]", "//*[(a)[1] = '1']", "//*[(*)[1]/@a]", "//*[a[. = '1'][1]]"} {
